@@ -248,8 +248,10 @@ pub fn list_bounded_default<'text: 'a, 'a, Sc, F, X: 'a, A>(
         }
 
         // We should be stable after each value parse, so no further recovery
-        // should be needed after finishing the list.
-        debug_assert!(lexer.recover_state().is_none());
+        // should be needed after finishing the list. (If no value was parsed,
+        // the lexer is the one the list was given, which may still be
+        // recovering from an earlier error.)
+        debug_assert!(vals.is_empty() || lexer.recover_state().is_none());
 
         if vals.len() < low {
             let parse_error = Box::new(RepeatCountError {
